@@ -470,7 +470,7 @@ impl Check {
                         let cfg = Config {
                             cases: per,
                             failure_persistence: None,
-                            max_shrink_iters: 4000,
+                            max_shrink_iters: std::env::var("VERIF_SHRINK_ITERS").ok().and_then(|s| s.parse().ok()).unwrap_or(1500),
                             max_global_rejects: 1_000_000,
                             ..Config::default()
                         };
@@ -484,7 +484,13 @@ impl Check {
                             match self.judge(sub, &case, f, !failed.get()) {
                                 None => Ok(()),
                                 Some((sig, _)) => {
-                                    failed.set(true);
+                                    if !failed.get() {
+                                        // only the first thread that finds an unknown failure shrinks it
+                                        if self.stop.swap(true, Ordering::SeqCst) {
+                                            return Ok(());
+                                        }
+                                        failed.set(true);
+                                    }
                                     Err(TestCaseError::fail(sig))
                                 }
                             }
